@@ -9,7 +9,7 @@
 (***************************************************************************)
 EXTENDS Props
 
-CONSTANTS Depth, MaxId, HistCalls, RegCust
+CONSTANTS Depth, MaxId, HistCalls, RegCust, Prefix
 
 VARIABLES S, tl, cur, n
 
@@ -20,6 +20,12 @@ HC_A == {<<1,1,0,1,0>>, <<1,2,1,1,0>>, <<1,3,1,2,0>>, <<2,1,3,1,0>>, <<4,2,0,0,0
 \* B: chain 1@0 -> 3@2 with skip edge, forced insertion of 2@1, edge deletions, attribute update
 HC_B == {<<1,1,0,1,0>>, <<1,3,2,1,0>>, <<1,2,1,1,1>>, <<3,1,3,0,0>>, <<3,1,2,0,0>>, <<6,1,1,1,0>>, <<4,1,0,0,0>>}
 \* C: divisions: 1@0 with children 2@1, 3@1; forced add into the divided track; delete the dividing node
+\* D (4 nodes, after the prefix PX_D = division 1@0 -> {2@2, 3@2}): forced add of 4@1 into the track of
+\*    child 2 (nests UserDeleteEdge of a division edge), forced add into the dividing track (nests two),
+\*    delete the dividing node, forced re-parenting
+PX_none == <<>>
+PX_D == << <<1,1,0,1,0>>, <<1,2,2,1,0>>, <<1,3,2,2,0>>, <<2,1,3,0,0>> >>
+HC_D == {<<1,4,1,3,1>>, <<1,4,1,1,1>>, <<4,1,0,0,0>>, <<2,4,2,1,0>>, <<4,4,0,0,0>>}
 HC_C == {<<1,1,0,1,0>>, <<1,2,1,1,0>>, <<1,3,1,1,0>>, <<2,1,3,0,0>>, <<1,3,2,1,1>>, <<4,1,0,0,0>>, <<3,1,2,0,0>>}
 
 DefaultAct == IF HasSeg THEN {"tid", "lid", "pos", "area"} ELSE {"tid", "lid"}
@@ -37,10 +43,15 @@ EmptyS == [time |-> [x \in Node |-> NoT], E |-> {}, tid |-> [x \in Node |-> None
 TS(s) == [time |-> s.time, E |-> s.E, tid |-> s.tid, lid |-> s.lid, cust |-> IF "cust" \in s.reg THEN s.cust ELSE <<>>,
           pos |-> s.pos, area |-> s.area, iou |-> s.iou, seg |-> s.seg, shp |-> s.shp, ecust |-> s.ecust]
 
-Init == S = EmptyS /\ tl = <<TS(EmptyS)>> /\ cur = 1 /\ n = 0
-
 \* timeline after a new edit made at position cur: undone steps appended in reverse
 Extend(t, c, new) == t \o [i \in 1..(Len(t) - c) |-> t[Len(t) - i]] \o <<new>>
+\* state and timeline after the (accepted) calls of the prefix
+RECURSIVE AfterPrefix(_, _, _)
+AfterPrefix(s, t, p) == IF p = <<>> THEN <<s, t>>
+                        ELSE LET r == StepOrd(s, Head(p), 1)
+                             IN AfterPrefix(r.s, IF r.ok THEN Extend(t, Len(t), TS(r.s)) ELSE t, Tail(p))
+Init == LET a == AfterPrefix(EmptyS, <<TS(EmptyS)>>, Prefix)
+        IN S = a[1] /\ tl = a[2] /\ cur = Len(a[2]) /\ n = 0
 
 Edit(c) == \E r \in StepSet(S, c) :
     /\ S' = r.s
